@@ -55,6 +55,8 @@ pub struct Th {
     pub parks: u32,
     spinning: bool,
     forced: bool,
+    /// yield-type points since the last point that was neither a yield nor a load
+    spin_streak: u32,
     /// address of the last atomic this thread CAS-ed successfully from 0 to 1
     last_cas: usize,
     /// lock word currently held (0 = none)
@@ -126,6 +128,7 @@ pub struct Outcome {
     pub livelock: Option<u8>,
     pub sched_used: usize,
     pub cross_checked: u32,
+    pub spin_end_segments: u32,
 }
 
 struct Inner {
@@ -138,6 +141,9 @@ struct Inner {
     sched: Vec<u8>,
     pos: usize,
     seg_left: u32,
+    /// current segment runs its thread to the end of its spin phase
+    seg_spin_end: bool,
+    pub_spin_end_segments: u32,
     fair: bool,
     fair_left: u32,
     now: u64,
@@ -211,6 +217,8 @@ impl Inner {
             sched: Vec::new(),
             pos: 0,
             seg_left: 0,
+            seg_spin_end: false,
+            pub_spin_end_segments: 0,
             fair: false,
             fair_left: 0,
             now: 0,
@@ -256,6 +264,16 @@ impl Inner {
             let idx = a * normal.len() / 256;
             let cls = ((b & 15) as usize) * RUN.len() / 16;
             self.seg_left = RUN[cls];
+            self.seg_spin_end = false;
+            if b & 15 == 13 {
+                // position-targeted segment: run the chosen thread until its current spin phase
+                // (>= 64 yield iterations) is about to end, i.e. right before its next step
+                // that is neither a yield nor a load (for `Signal::wait`: before it stores its
+                // thread handle and announces that it parks)
+                self.seg_spin_end = true;
+                self.seg_left = 1500;
+                self.pub_spin_end_segments += 1;
+            }
             let dt = match (b >> 4) & 3 {
                 0 | 1 => 0,
                 2 => 1,
@@ -392,6 +410,8 @@ fn lock(rt: &Rt) -> MutexGuard<'_, Inner> {
 enum Pt {
     Plain,
     Yield,
+    /// an atomic load (part of a spin iteration)
+    Load,
 }
 
 impl Rt {
@@ -448,6 +468,21 @@ impl Rt {
             g.end = End::Budget;
             self.abandon_with(g, me);
         }
+        let mut spin_phase_ends = false;
+        match kind {
+            Pt::Yield => g.th[me].spin_streak += 1,
+            Pt::Load => {}
+            Pt::Plain => {
+                if g.seg_spin_end && !g.fair && g.th[me].spin_streak >= 64 {
+                    spin_phase_ends = true;
+                }
+                g.th[me].spin_streak = 0;
+            }
+        }
+        if spin_phase_ends {
+            g.seg_left = 0;
+            g.seg_spin_end = false;
+        }
         let lowprio_must_yield = g.th[me].low_prio
             && (0..g.th.len()).any(|i| g.runnable(i) && !g.th[i].low_prio);
         let switch_now = if lowprio_must_yield {
@@ -496,6 +531,7 @@ impl Rt {
     /// The current thread cannot continue (blocked or finished): pass the baton on.
     fn block_and_pass(&self, mut g: MutexGuard<'_, Inner>, me: usize) {
         g.seg_left = 0;
+        g.seg_spin_end = false;
         match g.pick() {
             Some(n) => {
                 if g.th[me].st == St::Finished {
@@ -576,8 +612,8 @@ impl Runtime for Rt {
     fn managed(&self) -> bool {
         VID.with(|v| v.get()) != u32::MAX
     }
-    fn atomic_pre(&self, addr: usize, _op: AtomicOp, _ord: O) {
-        self.point(Pt::Plain);
+    fn atomic_pre(&self, addr: usize, op: AtomicOp, _ord: O) {
+        self.point(if op == AtomicOp::Load { Pt::Load } else { Pt::Plain });
         let me = self.me();
         let mut g = lock(self);
         g.check_uaf(me, addr, 1, "atomic access");
@@ -1095,6 +1131,7 @@ pub fn run(cfg: Config, bodies: Vec<Job>) -> Outcome {
                 parks: 0,
                 spinning: false,
                 forced: false,
+                spin_streak: 0,
                 last_cas: 0,
                 holding: 0,
             });
@@ -1140,6 +1177,7 @@ pub fn run(cfg: Config, bodies: Vec<Job>) -> Outcome {
         livelock: g.livelock,
         sched_used: g.pos.min(g.sched.len()),
         cross_checked: g.cross_checked,
+        spin_end_segments: g.pub_spin_end_segments,
     };
     g.active = false;
     out
